@@ -5,6 +5,7 @@ package h
 
 import (
 	"fmt"
+	"strings"
 	"sync"
 	"testing"
 	"time"
@@ -71,6 +72,11 @@ func (r *Run) Do(op Op) {
 		if h, ok := pseudoHandlers[op.K]; ok {
 			h(r, op)
 			return
+		}
+		if op.MetaCas == "same" {
+			// the event of this write (if any) carries the CAS of the version before it: settle
+			// the feeds first so that the two cannot be confused
+			r.SyncFeeds()
 		}
 		r.Step(op)
 	}
@@ -147,6 +153,12 @@ func genPseudo(rt *rapid.T, w *World, pr *Profile, kind string) Op {
 func SeqCase(rt *rapid.T, prop, test string, pr *Profile) (*Run, *Replay) {
 	cfg := genConfig(rt, pr)
 	w, err := NewWorld(cfg)
+	if err != nil && strings.Contains(err.Error(), "CreateDataStore") && (prop == "C11" || prop == "C13") {
+		// a collection with a name of its own could not be created next to the others
+		dev := Deviation{Clause: "setup.collection", Props: []string{"C11"}, Msg: fmt.Sprintf("creating the collections %v of a new bucket failed: %v", cfg.Colls, err), Sig: "setup.collection"}
+		path := saveReplay(&Replay{Property: prop, Test: test, Config: cfg, Expect: []Deviation{dev}})
+		rt.Fatalf("property %s violated (replay %s): %s", prop, path, dev.Msg)
+	}
 	if err != nil {
 		rt.Fatalf("cannot create world: %v", err)
 	}
@@ -267,6 +279,10 @@ func seqProperty(t *testing.T, prop, test string, pr *Profile, defChecks int, ru
 			t.Skip("replay file is for another test")
 		}
 		run, err := ReplayCase(rp, pr)
+		if err != nil && strings.Contains(err.Error(), "CreateDataStore") && prop == "C11" {
+			st.Violations++
+			t.Fatalf("property %s violated by replay: creating the collections %v failed: %v", prop, rp.Config.Colls, err)
+		}
 		if err != nil {
 			t.Fatalf("replay: %v", err)
 		}
